@@ -3,6 +3,7 @@ package main
 import (
 	"encoding/json"
 	"fmt"
+	"path"
 	"sort"
 	"strings"
 
@@ -49,6 +50,12 @@ type accountsCase struct {
 	Pkgs   []SPkg          `json:"pkgs,omitempty"` // e2e
 	// e2e: the accounts are declared in an include:d configuration file (accounts_glue.go)
 	Include bool `json:"include,omitempty"`
+	// how many of Muts (and, for the merge steps, of Users / Groups) the include:d configuration declares; the rest is
+	// declared by the including one.  The build must see included ++ own, repetitions and all (MergeInto).
+	IncMuts int `json:"inc_muts,omitempty"`
+	// e2e: the path list was generated as an interfering sequence with a repeated mutation (A, B, A): the layer is
+	// judged against the fold of the whole list only
+	Repeat string `json:"repeat,omitempty"`
 }
 
 type accountsSuite struct{}
@@ -80,24 +87,109 @@ func (m accountsMut) real() types.PathMutation {
 	return types.PathMutation{Path: m.Path, Type: m.Type, UID: m.UID, GID: m.GID, Permissions: m.Perms, Source: m.Source, Recursive: m.Recursive}
 }
 
+func (u accountsUser) token() string {
+	g := "-"
+	if u.GID != nil {
+		g = fmt.Sprint(*u.GID)
+	}
+	return fmt.Sprintf("u,%s,%d,%s,%s,%s", hx(u.Name), u.UID, g, hx(u.Shell), hx(u.Home))
+}
+
+func (g accountsGroup) token() string {
+	var ms []string
+	for _, m := range g.Members {
+		ms = append(ms, hx(m))
+	}
+	return fmt.Sprintf("g,%s,%d,%s", hx(g.Name), g.GID, strings.Join(ms, "+"))
+}
+
 func accountsTokens(c accountsCase) []string {
 	var t []string
 	for _, u := range c.Users {
-		g := "-"
-		if u.GID != nil {
-			g = fmt.Sprint(*u.GID)
-		}
-		t = append(t, fmt.Sprintf("u,%s,%d,%s,%s,%s", hx(u.Name), u.UID, g, hx(u.Shell), hx(u.Home)))
+		t = append(t, u.token())
 	}
 	for _, g := range c.Groups {
-		var ms []string
-		for _, m := range g.Members {
-			ms = append(ms, hx(m))
-		}
-		t = append(t, fmt.Sprintf("g,%s,%d,%s", hx(g.Name), g.GID, strings.Join(ms, "+")))
+		t = append(t, g.token())
 	}
 	t = append(t, "r,"+hx(c.RunAs))
 	return t
+}
+
+// accountsMergeSteps: the REAL ImageConfiguration.MergeInto on the lists of the case — the first k elements of each list
+// declared by the included configuration, the rest by the including one — against the model (mergeLists: included ++
+// own, nothing dropped, nothing reordered, repetitions kept).  The lists are read back from the merged configuration.
+func accountsMergeSteps(c accountsCase) []Step {
+	cut := func(n int) int {
+		if c.IncMuts < n {
+			return c.IncMuts
+		}
+		return n
+	}
+	full := accountsIC(c)
+	km, ku, kg := cut(len(full.Paths)), cut(len(full.Accounts.Users)), cut(len(full.Accounts.Groups))
+	var vols []string
+	for i := range c.Muts {
+		vols = append(vols, "/vol/"+path.Base(c.Muts[i].Path))
+	}
+	inc := types.ImageConfiguration{Paths: append([]types.PathMutation{}, full.Paths[:km]...), Volumes: append([]string{}, vols[:km]...)}
+	inc.Accounts.Users = append([]types.User{}, full.Accounts.Users[:ku]...)
+	inc.Accounts.Groups = append([]types.Group{}, full.Accounts.Groups[:kg]...)
+	own := types.ImageConfiguration{Paths: append([]types.PathMutation{}, full.Paths[km:]...), Volumes: append([]string{}, vols[km:]...)}
+	own.Accounts.Users = append([]types.User{}, full.Accounts.Users[ku:]...)
+	own.Accounts.Groups = append([]types.Group{}, full.Accounts.Groups[kg:]...)
+	err := inc.MergeInto(&own)
+	var steps []Step
+	mk := func(what string, k int, declared, got []string) {
+		g := strings.Join(got, "|")
+		if err != nil {
+			g = "err"
+		}
+		rep := "no-repeat"
+		seen := map[string]bool{}
+		for _, t := range declared {
+			if seen[t] {
+				rep = "repeat"
+			}
+			seen[t] = true
+		}
+		steps = append(steps, Step{
+			Line:    "acc.merge\t" + fmt.Sprint(k) + "\t" + strings.Join(declared, "\t"),
+			Go:      g,
+			Desc:    fmt.Sprintf("ImageConfiguration.MergeInto: %s, the first %d of %d declared by the included configuration: %s", what, k, len(declared), strings.Join(declared, " ")),
+			Tags:    []string{"merge:" + what + ":" + rep},
+			Trivial: len(declared) == 0,
+		})
+	}
+	var dm, gm, du, gu, dg, gg, dv, gv []string
+	for _, m := range c.Muts {
+		dm = append(dm, m.token())
+	}
+	for _, m := range own.Paths {
+		gm = append(gm, accountsMut{Path: m.Path, Type: m.Type, UID: m.UID, GID: m.GID, Perms: m.Permissions, Source: m.Source, Recursive: m.Recursive}.token())
+	}
+	for _, u := range c.Users {
+		du = append(du, u.token())
+	}
+	for _, u := range own.Accounts.Users {
+		gu = append(gu, accountsUser{Name: u.UserName, UID: u.UID, GID: u.GID, Shell: u.Shell, Home: u.HomeDir}.token())
+	}
+	for _, g := range c.Groups {
+		dg = append(dg, g.token())
+	}
+	for _, g := range own.Accounts.Groups {
+		gg = append(gg, accountsGroup{Name: g.GroupName, GID: g.GID, Members: g.Members}.token())
+	}
+	for _, v := range vols {
+		dv = append(dv, hx(v))
+	}
+	for _, v := range own.Volumes {
+		gv = append(gv, hx(v))
+	}
+	mk("paths", km, dm, gm)
+	mk("users", ku, du, gu)
+	mk("groups", kg, dg, gg)
+	mk("volumes", km, dv, gv)
+	return steps
 }
 
 func accountsIC(c accountsCase) types.ImageConfiguration {
@@ -216,7 +308,7 @@ func accountsRunPaths(c accountsCase) []Step {
 		Mode:    "verdict",
 		Trivial: err != nil || len(c.Muts) == 0,
 	})
-	return steps
+	return append(steps, accountsMergeSteps(c)...)
 }
 
 // accountsRunAlias: the real mutateAccounts on a tree in which etc/group and etc/passwd are one node.  The goroutines
